@@ -413,6 +413,7 @@ def selects(cn, cnd):
 
 def referring(M, rep, ctx, R4, R5):
     fam = {}
+    kinds_by = {}
     rctx = Ctx(M, coarse=False)
     rctx.cfg.compose = False
     for cn in ("Section", "Source"):
@@ -458,6 +459,7 @@ def referring(M, rep, ctx, R4, R5):
                                                         (a_[1][0] == "inst" and a_[1][1] == "Section")):
                         truth = a_
             okc = kind in kinds or ("find_" + kind) in kinds
+            kinds_by[(cn, kind)] = set(kinds)
             why = "does not select by `metadata.id == self.id`" if cn == "Section" else \
                 "does not select by membership of this source in the candidate's sources"
             if okc and sel and truth is not None:
@@ -502,6 +504,8 @@ def referring(M, rep, ctx, R4, R5):
     # sources form a tree: sections linked by nested sources must be found
     g = fam.get("Section", {}).get("sources")
     if g is not None:
-        deep = any(isinstance(n, ast.Attribute) and n.attr == "find_sources" for n in ast.walk(g.node))
+        # (what the getter iterates was established on its abstract paths above: the tree search, not the top-level container)
+        deep = "find_sources" in kinds_by.get(("Section", "sources"), set()) or \
+            any(isinstance(n, ast.Attribute) and n.attr == "find_sources" for n in ast.walk(g.node))
         rep.check(R5, "Section.referring_sources/depth", deep, "Section.referring_sources looks at the top-level sources of each block "
                   "only: a nested source that links this section is not reported", site=g.file + ":%d" % g.node.lineno)
